@@ -13,8 +13,9 @@ import (
 	"verif/simfs"
 )
 
-// payloadSizes is biased to the 4 KiB bufio buffer and the 8 KiB pooled scratch buffers.
-var payloadSizes = []int{0, 1, 7, 100, 4095, 4096, 4097, 8191, 8192, 8193, 20000, 70000, 300000}
+// payloadSizes is biased to the 4 KiB bufio buffer, the 8 KiB length and the 16 KiB capacity of
+// the pooled scratch buffers (MemPoolNoLimit.Get(8192) allocates twice the requested size).
+var payloadSizes = []int{0, 1, 7, 100, 4095, 4096, 4097, 8191, 8192, 8193, 16300, 16350, 16383, 16384, 16385, 20000, 32767, 70000, 300000}
 
 var payloadKinds = []string{"zeros", "text", "incompressible"}
 
@@ -61,6 +62,10 @@ func genPayload(t *sim.Tape, big bool) ([]byte, string) {
 		n = t.Draw(64)
 	case 1:
 		n = t.Draw(9000)
+	case 2:
+		// just below a power of two: the window in which a buffer of that capacity is larger
+		// than the data but smaller than the worst-case compressed size
+		n = 1<<(10+t.Draw(8)) - t.Draw(96)
 	default:
 		n = sim.Pick(t, payloadSizes)
 	}
